@@ -268,7 +268,7 @@ pub mod tag {
 }
 
 proof! {
-	[secp, hash_mix, clock]
+	[secp, hash_mix, clock, sort]
 	#[cfg_attr(kani, kani::stub(grin_core::core::transaction::Transaction::validate, tag::validate))]
 	fn add_to_pool_gate_sequencing() {
 		// TransactionPool::add_to_pool on empty pools, one transaction, with the chain, the
